@@ -133,6 +133,18 @@ func assemble(frags []Frag) []byte {
 			emit(opGAS)
 			emit(opCALL)
 			emit(opPOP)
+		case "callvalue": // A times CALL(gas B, address 0x99, value 1, no data)
+			for i := 0; i < f.A; i++ {
+				emit(push1(0)...)    // out size
+				emit(push1(0)...)    // out offset
+				emit(push1(0)...)    // in size
+				emit(push1(0)...)    // in offset
+				emit(push1(1)...)    // value
+				emit(push1(0x99)...) // address
+				emit(push1(f.B)...)  // gas
+				emit(opCALL)
+				emit(opPOP)
+			}
 		case "selfdestruct":
 			emit(push1(0)...)
 			emit(opSELFDESTRUCT)
